@@ -1378,7 +1378,7 @@ def run(ctx: core.Ctx):
         {
             "documents_in_table": len(docs),
             "paths": len(paths),
-            "literal_documents": len(lit_docs_for(tier)) if ldocs else 0,
+            "literal_documents": len(ldocs),
             "constructor_documents": len(cdocs),
             "work_items": len(items),
             "atoms": [canon(a) for a in (ATOMS if tier == "thorough" else ATOMS_QUICK)],
